@@ -1,7 +1,7 @@
 """C08 Downlink local state equals the fold of what it received."""
 import collections
 from mirlib import describe_rvalue, AnchorMissing, describe_call, describe_operand, dom_guards, guards, _suffix_match
-from rules.common import assign_roles_by_type, aggregates, owner_def, panic_sites, where
+from rules.common import guard_mentions, assign_roles_by_type, aggregates, owner_def, panic_sites, where
 
 META = {
     "explanation": (
@@ -157,6 +157,8 @@ def run(ctx):
             g = guards(b, blk)
             if not any("notification" in d and l == "Event" for d, l, _ in g):
                 continue
+            if not ops:
+                continue  # a state without a value (Unlinked written back as it was)
             n += 1
             cond = [(d, l) for d, l, _ in g if "events_when_not_synced" in d]
             r.check(not cond, "client-value/Event/State::%s-unconditional" % variant, b.loc(line), "State::%s(body) is stored whatever events_when_not_synced is" % variant,
@@ -185,7 +187,7 @@ def run(ctx):
         for c in ne.calls:
             if c.via_name in ("on_event", "on_set"):
                 g = guards(ne, c.block)
-                r.check(any(("events_when_not_synced" in d or "Synced" in d or "dl_state" in d) for d, l, _ in g), "hosted-value/%s-conditional" % c.via_name, c.loc(),
+                r.check(any(("events_when_not_synced" in d or "Synced" in d or "dl_state" in d) for d, l, _ in g) or guard_mentions(ne, c.block, ("events_when_not_synced", "dl_state", "DlState")), "hosted-value/%s-conditional" % c.via_name, c.loc(),
                         "%s depends on synced || events_when_not_synced" % c.via_name, "%s fires unconditionally" % c.via_name)
 
     # ---- R2 siblings ---------------------------------------------------------------------------
@@ -294,8 +296,9 @@ def run(ctx):
         for var in ("Take", "Drop"):
             in_arm = lambda c: any(d == "disc(event)" and l == var for d, l, _ in dom_guards(oe, c.block))
             taken = [c for c in oe.calls if c.name == "take" and "core::mem" in c.defpath and in_arm(c)]
-            ins = [c for c in oe.calls if c.name == "insert" and c.args and describe_operand(oe, c.args[0]) == "map" and in_arm(c)]
-            cbs = [c for c in oe.calls if c.via_name in ("on_remove", "on_update") and in_arm(c) and any(describe_operand(oe, a) == "map" for a in c.args)]
+            # survivors go back by insert, extend or append; the callbacks may sit in a helper (analysed in place)
+            ins = [c for c in oe.calls if c.name in ("insert", "extend", "append") and c.args and describe_operand(oe, c.args[0]).lstrip("&").replace("mut ", "") == "map" and in_arm(c)]
+            cbs = [c for c in oe.calls if c.via_name in ("on_remove", "on_update") and in_arm(c)]
             if not taken or not ins or not cbs:
                 raise AnchorMissing("client on_event %s arm: mem::take %d / re-insert %d / callbacks %d" % (var, len(taken), len(ins), len(cbs)))
             for c in cbs:
@@ -452,6 +455,8 @@ def run(ctx):
                     cur = [l for d, l, _ in g if d == "disc(state)"]
                     if not note:
                         continue
+                    if cur and cur[-1] == rv[1]["variant"] and not rv[2]:
+                        continue  # `X => X`: the state is written back unchanged (an explicit arm instead of a wildcard)
                     got.add((note[-1], cur[-1] if cur else None, rv[1]["variant"]))
             # a transition guarded by the current state matches an expectation that does not care about it
             def matches(t, w):
